@@ -177,6 +177,8 @@ class CaseEval:
         self.sx, self.case, self.binds, self.m, self.lt, self.names = sx, case, binds, m, lt, names
 
     def poly(self, t):
+        if t[0] == "polyval":
+            return t[1]
         if t in self.binds:
             return self.binds[t]
         h = t[0]
@@ -300,6 +302,8 @@ class CaseEval:
         if not isinstance(t, tuple) or not t or not isinstance(t[0], str):
             return t
         h = t[0]
+        if h == "polyval":
+            return t
         if h == "idx":
             base = t[1]
             if base[0] == "idx" and base[1] == ("v", self.names["moves"]):
@@ -369,9 +373,39 @@ class Game:
             return self._leaves(t[1]) + self._leaves(t[2])
         return [t]
 
+    def _post_processing(self, T):
+        """`transition_list = helper(players, transition_list)`: a loop over (zip(players,) the block list that rebuilds every
+        entry.  Returns (loop, variable, zipped?, underlying term) or None."""
+        if T[0] != "res" or T[1] not in self.sx.loops:
+            return None
+        Lp = self.sx.loops[T[1]]
+        if Lp.kind != "for" or Lp.has_break or Lp.has_return or Lp.init.get(T[2]) != ("list", ()):
+            return None
+        src_t = Lp.source
+        if src_t[0] == "call" and src_t[1] == "zip" and len(src_t[2]) == 2:
+            inner, zipped = src_t[2][1], True
+        else:
+            inner, zipped = src_t, False
+        if inner[0] not in ("cat", "res", "list", "compr"):
+            return None
+        # the underlying term must itself decompose into blocks (range(length) loop nests)
+        leaves = self._leaves(inner)
+        if not any(l[0] in ("res", "compr") for l in leaves) or inner == T:
+            return None
+        for l in leaves:
+            if l[0] == "res" and self.sx.loops[l[1]].source != ("call", "range", (self.L,), ()):
+                return None
+        return Lp, T[2], zipped, inner
+
     def _blocks(self):
         self.blocks, self.tail = [], []
-        for leaf in self._leaves(self.dict["transition_list"]):
+        self.post = None
+        T = self.dict["transition_list"]
+        pp = self._post_processing(T)
+        if pp is not None:
+            self.post = pp[:3]
+            T = pp[3]
+        for leaf in self._leaves(T):
             if leaf[0] == "res":
                 if self.tail:
                     raise AnalysisError("%s: a block follows the tail states" % self.func.short)
@@ -439,15 +473,108 @@ class Game:
         """The transition list appended for tile (i,j) of `block` in `case` with moves[i][j]=m, loose[i][j]=lt."""
         binds = {self.L: case.L, self.W: case.W, ("elem", block.Lo.id): case.i, ("elem", block.Li.id): case.j}
         ce = CaseEval(self.sx, case, binds, m, lt, self.names)
+        if self.post is not None:
+            raw = self._raw_entry(block, ce)
+            return ce, self._apply_post(block, case, ce, raw)
+        return ce, self._raw_entry(block, ce)
+
+    def _apply_post(self, block, case, ce, entry):
+        """Run the entry through the post-processing loop (its summary, evaluated on the abstract entry)."""
+        from .guards import Evaluator, EvalUnsupported, Crash
+        if entry is None or entry[0] != "list":
+            return entry
+        items = []
+        for t in entry[1]:
+            t = ce.ev(t)
+            if t[0] != "tup" or len(t[1]) != 2:
+                raise Undecided("post-processing: transition `%s` is not a pair" % show(t)[:60])
+            k, tgt = t[1]
+            kv = k[1] if is_const(k) and isinstance(k[1], str) else ce.poly(k)
+            items.append((kv, ce.poly(tgt)))
+        # the helper may compare successor indices with each other: every pair must be decided in this case
+        for a_ in range(len(items)):
+            for b_ in range(a_ + 1, len(items)):
+                d_ = (items[a_][1] - items[b_][1]).sign(FRESH)
+                if d_ not in ("0", "+", "-"):
+                    raise Undecided("post-processing compares successor indices %r and %r, whose equality is not decided in case %s (use the finer partition)" % (
+                        items[a_][1], items[b_][1], case.name))
+        Lp, var, zipped = self.post
+        owner = self.owner_of_block(block.index, case)
+        ev = Evaluator(self.sx, {})
+        loc = {("elem", Lp.id): ((owner, items) if zipped else items), ("pos", Lp.id): 0, ("acc", Lp.id, var): []}
+        for v_, init in Lp.init.items():
+            if v_ != var:
+                loc[("acc", Lp.id, v_)] = None
+        try:
+            out = ev.ev(Lp.update[var], loc)
+        except (EvalUnsupported, Crash) as e:
+            raise Undecided("post-processing of the transition list (%s) could not be evaluated on an abstract entry: %s" % (_enclosing_function(self.ctx, Lp.node), e))
+        if not isinstance(out, list) or len(out) != 1:
+            raise Undecided("post-processing yields %d entries for one state" % (len(out) if isinstance(out, list) else -1))
+        return ("pyentry", out[0])
+
+    def tail_entry(self, k, case):
+        """Transition list of tail state k (after post-processing, if any) as [(key, target Poly)]; None if not a list."""
+        t = self.tail[k]
+        ce = CaseEval(self.sx, case, {self.L: case.L, self.W: case.W}, 0, 0, self.names)
+        if self.post is not None:
+            class _B:
+                index = None
+            owner_segments = self.segments("players", case)
+            items = []
+            if t[0] != "list":
+                return None
+            for x in t[1]:
+                if x[0] != "tup" or len(x[1]) != 2:
+                    return None
+                items.append((x[1][0][1] if is_const(x[1][0]) and isinstance(x[1][0][1], str) else ce.poly(x[1][0]), ce.poly(x[1][1])))
+            from .guards import Evaluator, EvalUnsupported, Crash
+            Lp, var, zipped = self.post
+            # owner of the tail state: the segment covering index nb*n + k
+            start, owner = Poly(), None
+            for val, ln in owner_segments:
+                end = start + ln
+                idx = len(self.blocks) * case.n + k
+                if (idx - start).sign(FRESH) in ("0", "+", ">=0") and (end - idx - 1).sign(FRESH) in ("0", "+", ">=0"):
+                    owner = val[1] if is_const(val) else None
+                start = end
+            loc = {("elem", Lp.id): ((owner, items) if zipped else items), ("pos", Lp.id): 0, ("acc", Lp.id, var): []}
+            for v_ in Lp.init:
+                if v_ != var:
+                    loc[("acc", Lp.id, v_)] = None
+            try:
+                out = Evaluator(self.sx, {}).ev(Lp.update[var], loc)
+            except (EvalUnsupported, Crash) as e:
+                raise Undecided("post-processing of a tail state could not be evaluated: %s" % e)
+            return out[0] if isinstance(out, list) and len(out) == 1 else None
+        if t[0] != "list":
+            return None
+        items = []
+        for x in t[1]:
+            if x[0] != "tup" or len(x[1]) != 2:
+                return None
+            items.append((x[1][0][1] if is_const(x[1][0]) and isinstance(x[1][0][1], str) else ce.poly(x[1][0]), ce.poly(x[1][1])))
+        return items
+
+    def owner_of_block(self, b, case):
+        start = Poly()
+        for val, ln in self.segments("players", case):
+            end = start + ln
+            if (b * case.n - start).sign(FRESH) in ("0", "+", ">=0") and (end - (b + 1) * case.n).sign(FRESH) in ("0", "+", ">=0"):
+                return val[1] if is_const(val) else None
+            start = end
+        return None
+
+    def _raw_entry(self, block, ce):
+        case = ce.case
         if block.elt is not None:
-            return ce, ce.ev(block.elt)
+            return ce.ev(block.elt)
         u = ce.ev(block.Li.update[block.var])
         acc = ("acc", block.Li.id, block.var)
         if u[0] == "cat" and u[1] == acc and u[2][0] == "list" and len(u[2][1]) == 1:
-            e = ce.ev(u[2][1][0])
-            return ce, e
+            return ce.ev(u[2][1][0])
         if u == acc:
-            return ce, None
+            return None
         raise Undecided("%s block %d: per-tile update `%s` is not a single append" % (self.func.short, block.index, show(u)[:120]))
 
     def segments(self, key, case):
